@@ -15,6 +15,20 @@ import llir, fm
 from symx import Unsupported
 
 ld = sp.Function('ld')
+
+
+def mksel(pred, a, b, x, y):
+    """sel(pred, a, b, x, y) = x if (a pred b) else y, with the comparison in a canonical spelling (lt / le / eq only)"""
+    pred = str(pred)
+    if pred == 'gt':
+        pred, a, b = 'lt', b, a
+    elif pred == 'ge':
+        pred, a, b = 'le', b, a
+    elif pred == 'ne':
+        pred, x, y = 'eq', y, x
+    if pred == 'eq' and str(a) > str(b):
+        a, b = b, a
+    return sel(sp.Symbol(pred), a, b, x, y)
 ldraw = sp.Function('ldraw')
 
 
@@ -361,7 +375,7 @@ class Aff:
                 if c is not None:
                     cmp_, first_true = c
                     x, y = (vals[0], vals[1]) if first_true else (vals[1], vals[0])
-                    return sel(sp.Symbol(cmp_.pred), cmp_.a, cmp_.b, x, y)
+                    return mksel(cmp_.pred, cmp_.a, cmp_.b, x, y)
             s = sp.Symbol('mrg_' + d.res.replace('.', '_'), real=True)
             self.opaque.add(s)
             return s
@@ -447,8 +461,7 @@ class Aff:
                     return y
             if c is None:
                 raise Unsupported('select on a non-comparison')
-            s = sel(sp.Symbol(c.pred), c.a, c.b, x, y)
-            return s
+            return mksel(c.pred, c.a, c.b, x, y)
         if op == 'call':
             name = d.x.get('callee').v if d.x.get('callee') is not None and d.x['callee'].k == 'global' else None
             if name in PURE:
